@@ -15,6 +15,11 @@
 (*             instructions) scanning a ROM data section of nlines lines of  *)
 (*             wpl words each                                               *)
 (*   so        nproc processors each attached to the same nso shared queues *)
+(*   dynops    instructions that are created on demand (rsets<k>, fixed    *)
+(*             point arithmetic) next to static ones whose names sort      *)
+(*             before and after them                                       *)
+(*   hybrid/ramio  the RAM program reads and writes ports (i1, o1) and     *)
+(*             registers the ROM program does not mention                  *)
 (*   misfit    an operand that cannot fit (a literal wider than the         *)
 (*             register): the source must be rejected (mov-max is the       *)
 (*             control: the largest literal that fits)                      *)
@@ -31,6 +36,10 @@ Shapes ==
   \* the ROM program uses r0 only; the RAM program uses registers the ROM program does not (r1, r2)
   {[kind |-> "hybrid", rsize |-> 8, ncode |-> 4, ndata |-> 0, ram |-> SetToSeq(s), npass |-> 0, high |-> FALSE, passfirst |-> FALSE, cpuin |-> FALSE, what |-> "rom0"] :
       s \in (SUBSET {"inc", "inc1", "dec"}) \ {{}}} \cup
+  {[kind |-> "hybrid", rsize |-> 8, ncode |-> 4, ndata |-> 0, ram |-> SetToSeq(s), npass |-> 0, high |-> FALSE, passfirst |-> FALSE, cpuin |-> FALSE, what |-> w] :
+      s \in (SUBSET {"in1", "out1", "inc5", "j"}) \ {{}}, w \in {"rom0", ""}} \cup
+  {[kind |-> "dynops", rsize |-> rs, ncode |-> 6, ndata |-> 0, ram |-> <<>>, npass |-> 0, high |-> FALSE, passfirst |-> FALSE, cpuin |-> FALSE, what |-> w] :
+      rs \in {8, 16}, w \in {"rsets4", "rsets4+sub", "addfps", "addfps+rsets4+sub", "multfps+sub", "divfps+rsets4+sub"}} \cup
   {[kind |-> "pass", rsize |-> 8, ncode |-> 5, ndata |-> 0, ram |-> <<>>, npass |-> np, high |-> h, passfirst |-> pf, cpuin |-> ci, what |-> ""] :
       np \in 0 .. 2, h \in BOOLEAN, pf \in BOOLEAN, ci \in BOOLEAN} \cup
   {[kind |-> "romscan", rsize |-> 8, ncode |-> 6, ndata |-> nl * wpl, ram |-> <<>>, npass |-> nl, high |-> FALSE, passfirst |-> FALSE, cpuin |-> FALSE, what |-> ToString(wpl)] :
